@@ -859,6 +859,25 @@ def _tour_parser(ctx: Ctx) -> None:
                     c = tuple(repo.const(fi.module, e)
                               for e in tst.comparators[0].elts)
                 return isinstance(c, tuple) and set(c) == {"-1", "EOF"}
+            if isinstance(tst, ast.BoolOp) and isinstance(tst.op, ast.Or):
+                # x == "EOF" or x == "-1" (either order, same x)
+                vals, lefts = set(), set()
+                for v_ in tst.values:
+                    if not (isinstance(v_, ast.Compare) and len(
+                            v_.ops) == 1 and isinstance(v_.ops[0], ast.Eq)):
+                        return False
+                    a_, b_ = v_.left, v_.comparators[0]
+                    ca, cb = repo.const(fi.module, a_), repo.const(
+                        fi.module, b_)
+                    if isinstance(cb, str):
+                        vals.add(cb)
+                        lefts.add(src(a_))
+                    elif isinstance(ca, str):
+                        vals.add(ca)
+                        lefts.add(src(b_))
+                    else:
+                        return False
+                return vals == {"-1", "EOF"} and len(lefts) == 1
             return False
         flag = flags[0] if len(flags) == 1 else None
         if flag is None or len(sets) != 1 or len(lists) != 1:
